@@ -250,6 +250,7 @@ def run(idx, rep, tier):
                 rep.decide(ok, "cond-arity", f"{r.role}/{n}", f"cond `{ast.unparse(r.cond)[:60]}` accepts {lo}..{'*' if hi >= 10**6 else hi} positional arguments; this signature is matched with {n}" +
                            ("" if ok else f": a call that omits {dropped} raises TypeError inside the resolver before any rule is selected"), detail="" if ok else "arity", locs=[r.loc])
     rep.floor("cond-arity", 4)
+    forwarded_algorithms(idx, rep, Resolver(idx, frozenset(idx.core_modules())))
     rep.floor("resolve", 3000 if tier == "quick" else 20000)
     # dead rules: informational
     for fname in fnames:
@@ -270,6 +271,89 @@ def run(idx, rep, tier):
         "argument kinds per function from sa/oracle_domains.py (documented domain) plus the types each rule documents itself",
     ]
     rep.assumptions.append("errors raised inside the selected rule are outside the property")
+
+
+def forwarded_algorithms(idx, rep, res):
+    """A rule of F that hands its own algorithm argument, untouched and unconditionally, to another dispatched function G makes every
+    algorithm class F admits an input of G's rule selection.  What F admits = what its rules name or construct, plus whatever the
+    functions it forwards to admit (`isqrt` documents Eig / Eigh / Lanczos / Arnoldi only because `pow` -> `apply_unary` take them).
+    The main enumeration covers the classes G itself admits; for any other class there must be a rule of G for a generic operator that
+    accepts it, otherwise `G(<generic operator>, k)` raises "no rule applies" on that path (the operand of the inner call is generic
+    at least when F's own operand is, or when it is computed)."""
+    from sa import dataflow as df
+    algs = {c.name for c in idx.algorithm_classes()}
+    edges = []
+    for fname in sorted(DOMAINS):
+        dom = DOMAINS[fname]
+        for r in res.rules_of(fname):
+            fnode = r.func.node
+            for p, prm in enumerate(r.params):
+                pn, atoms = prm[0], prm[1]
+                if p >= len(dom) or dom[p].rstrip("?") != "ALG" or not atoms or not set(atoms) <= algs:
+                    continue
+                if any(isinstance(x, ast.Name) and x.id == pn and isinstance(x.ctx, ast.Store) for x in ast.walk(fnode)):
+                    continue  # rebound: what is forwarded is no longer the caller's object
+                for c in df.calls(fnode):
+                    rr = idx.resolve_expr(r.module, c.func, r.func) if isinstance(c.func, (ast.Name, ast.Attribute)) else None
+                    if rr is None or rr.kind != "funcs":
+                        continue
+                    g = rr.val[-1].name
+                    if g not in DOMAINS or g not in idx.rules or not any(getattr(x, "rule", None) is not None for x in rr.val):
+                        continue
+                    grules = res.rules_of(g)
+                    if not grules:
+                        continue
+                    ab = res.abstract_of(g)
+                    pnames = [q[0] for q in (ab.params if ab is not None else max(grules, key=lambda x: len(x.params)).params)]
+                    bound = df.bind_call(c, pnames)
+                    for q, qn in enumerate(pnames):
+                        e = bound.get(qn)
+                        if q >= len(DOMAINS[g]) or DOMAINS[g][q].rstrip("?") != "ALG" or not (isinstance(e, ast.Name) and e.id == pn):
+                            continue
+                        conds = df.branch_conditions(c, fnode)
+                        guarded = any(pn in {n.id for n in ast.walk(t) if isinstance(n, ast.Name)} for t, _pol in conds if isinstance(t, ast.AST))
+                        op_e = bound.get(pnames[0])
+                        own = isinstance(op_e, ast.Name) and op_e.id == r.params[0][0]
+                        generic = (not own) or any(t in ("LinearOperator", "Any") for t in r.params[0][1])
+                        edges.append((fname, p, r, c, g, q, guarded, generic, atoms, pn))
+    adm = {}
+
+    def base(f, p):
+        if (f, p) not in adm:
+            adm[(f, p)] = set(admitted_algorithms(idx, res, f, p))
+        return adm[(f, p)]
+    for e in edges:
+        base(e[0], e[1]), base(e[4], e[5])
+    changed = True
+    while changed:
+        changed = False
+        for fname, p, r, c, g, q, guarded, generic, atoms, pn in edges:
+            if guarded:
+                continue
+            add = {k for k in adm[(g, q)] if any(idx.is_subclass_name(k, a) for a in atoms)} - adm[(fname, p)]  # only what this rule can be selected with
+            if add:
+                adm[(fname, p)] |= add
+                changed = True
+    for fname, p, r, c, g, q, guarded, generic, atoms, pn in edges:
+        construct = f"{r.role}->{g}"
+        if guarded:
+            rep.decide(None, "forwarded-algorithm", construct, f"`{pn}` is handed on to {g} under a condition on `{pn}` itself: not decided", locs=[idx.loc(r.module, c)])
+            continue
+        S = {k for k in adm[(fname, p)] if any(idx.is_subclass_name(k, a) for a in atoms)}
+        grules = res.rules_of(g)
+        missing = []
+        for k in sorted(S - set(admitted_algorithms(idx, res, g, q))):
+            if not generic:
+                continue
+            fits = [gr for gr in grules if gr.cond is None and q < len(gr.params) and any(idx.is_subclass_name(k, a) for a in gr.params[q][1])
+                    and any(t in ("LinearOperator", "Any") for t in gr.params[0][1])]
+            if not fits:
+                missing.append(k)
+        rep.decide(not missing, "forwarded-algorithm", construct,
+                   f"`{pn}` is handed on to {g}: " + (f"every class {fname} admits there ({sorted(S)}) is admitted by {g} or accepted by one of its generic rules" if not missing else
+                   f"{fname} admits {missing} at this position (they are what the other functions it forwards to take) but {g} has no rule for a generic operator with {'/'.join(missing)}: {g}(<generic operator>, {missing[0]}()) raises 'no rule applies'"),
+                   detail="" if not missing else ",".join(missing), locs=[idx.loc(r.module, c)])
+    rep.floor("forwarded-algorithm", 8)
 
 
 def differential(idx, rep, intr):
